@@ -6,7 +6,7 @@
 namespace scen_pool {
 
 enum { K_COAWAIT, K_COAWAIT_AWT_READY, K_COAWAIT_AWT_PENDING, K_RUN_FN, K_RUN_DETACHED, K_RUN_ASYNC, K_RESUME_SP, K_COUNT };
-struct Job { uint8_t kind, yields; };
+struct Job { uint8_t kind, yields, where; };     // where: 0 submitted by the owner thread, 1 by a second submitter thread
 struct Prog { uint8_t workers; std::vector<Job> jobs; uint8_t stop_who; uint8_t stop_pos; uint8_t stop_yields; };
 // stop_who: 0 destructor only, 1 owner calls stop() before job #stop_pos, 2 a pool job calls stop(), 3 owner stop() at the end then destructor
 
@@ -14,19 +14,21 @@ inline Prog decode(hz::Reader &r, bool allow_self_stop) {
     Prog p;
     p.workers = (uint8_t)(1 + r.mod(3));
     unsigned n = 1 + r.mod(3);
-    for (unsigned i = 0; i < n; i++) { Job j; j.kind = (uint8_t)r.mod(K_COUNT); j.yields = (uint8_t)r.mod(3); p.jobs.push_back(j); }
+    for (unsigned i = 0; i < n; i++) { Job j; j.kind = (uint8_t)r.mod(K_COUNT); j.yields = (uint8_t)r.mod(3); j.where = 0; p.jobs.push_back(j); }
     p.stop_who = (uint8_t)r.mod(4);
     if (!allow_self_stop && p.stop_who == 2) p.stop_who = 1;
     p.stop_pos = (uint8_t)r.mod(n + 1);
     if (p.stop_who == 2 && p.stop_pos >= n) p.stop_pos = (uint8_t)(n - 1);
     p.stop_yields = (uint8_t)r.mod(3);
+    uint8_t wmask = r.u8();
+    for (unsigned i = 0; i < n; i++) p.jobs[i].where = (wmask >> i) & 1;
     return p;
 }
 inline std::string describe(const Prog &p) {
     static const char *kn[] = {"co_await pool", "co_await pool(ready awaitable)", "co_await pool(pending awaitable)", "run(fn)", "run_detached(fn)", "run(async)", "resume(suspend_point)"};
     static const char *sw[] = {"destructor only", "owner stop() before job #", "a pool job calls stop() after job #", "owner stop() after all jobs, then destructor"};
     hz::Desc d; d << "pool(" << (unsigned)p.workers << " workers); jobs:";
-    for (auto &j : p.jobs) d << " [yield*" << (unsigned)j.yields << ", " << kn[j.kind] << "]";
+    for (auto &j : p.jobs) d << " [" << (j.where ? "2nd thread, " : "") << "yield*" << (unsigned)j.yields << ", " << kn[j.kind] << "]";
     d << "; stop: " << sw[p.stop_who];
     if (p.stop_who == 1 || p.stop_who == 2) d << (unsigned)p.stop_pos;
     return d.s;
@@ -36,7 +38,7 @@ struct JRec {
     int kind = 0;
     int ran = 0, cancelled = 0;
     bool on_worker = false;
-    int t_submit_end = 0, t_ran = 0;
+    int t_submit_begin = 0, t_submit_end = 0, t_ran = 0;
     long guards_live = 0; int guard_called = 0;
 };
 
@@ -47,9 +49,9 @@ struct Ctx {
     const Prog *p = nullptr;
     int t_stop_begin = 0, t_stop_end = 0;
     // per job resources that must outlive the pool
+    // indexed by job (two threads submit concurrently: no shared growing containers)
     std::vector<std::unique_ptr<cocls::future<void>>> co_done;     // coroutine-kind jobs
     std::vector<std::unique_ptr<cocls::future<int>>> int_futs;     // run(fn) / run(async)
-    std::vector<int> int_fut_job;
     std::vector<std::unique_ptr<cocls::future<int>>> gates;        // awaitables of K_COAWAIT_AWT_*
     std::vector<std::unique_ptr<cocls::future<void>>> vgates;      // parked coroutines of K_RESUME_SP
     void mark_ran(int i) { JRec &r = j[(size_t)i]; r.ran++; r.on_worker = is_current(*pp); r.t_ran = hz::tick(); }
@@ -83,40 +85,40 @@ inline cocls::async<void> job_parked(Ctx &c, int i, cocls::future<void> *gate) {
 
 inline void submit(Ctx &c, int i) {
     JRec &r = c.j[(size_t)i];
+    size_t u = (size_t)i;
     cocls::thread_pool &pool = *c.pp;
-    hz::upoints(c.p->jobs[(size_t)i].yields);
+    hz::upoints(c.p->jobs[u].yields);
+    r.t_submit_begin = hz::tick();
     switch (r.kind) {
         case K_COAWAIT:
-            c.co_done.emplace_back(new cocls::future<void>(job_coawait(c, i).start()));
+            c.co_done[u].reset(new cocls::future<void>(job_coawait(c, i).start()));
             break;
         case K_COAWAIT_AWT_READY: {
-            c.gates.emplace_back(new cocls::future<int>(cocls::future<int>::set_value(5)));
-            c.co_done.emplace_back(new cocls::future<void>(job_coawait_awt(c, i, c.gates.back().get()).start()));
+            c.gates[u].reset(new cocls::future<int>(cocls::future<int>::set_value(5)));
+            c.co_done[u].reset(new cocls::future<void>(job_coawait_awt(c, i, c.gates[u].get()).start()));
         } break;
         case K_COAWAIT_AWT_PENDING: {
-            c.gates.emplace_back(new cocls::future<int>());
-            cocls::promise<int> pr = c.gates.back()->get_promise();
-            c.co_done.emplace_back(new cocls::future<void>(job_coawait_awt(c, i, c.gates.back().get()).start()));
+            c.gates[u].reset(new cocls::future<int>());
+            cocls::promise<int> pr = c.gates[u]->get_promise();
+            c.co_done[u].reset(new cocls::future<void>(job_coawait_awt(c, i, c.gates[u].get()).start()));
             hz::upoint();
             pr(5);            // perform_resume -> pool.resume(...)
         } break;
         case K_RUN_FN: {
             Ctx *pc = &c;
-            c.int_futs.emplace_back(new cocls::future<int>(pool.run([pc, i]() -> int { pc->mark_ran(i); return 7; })));
-            c.int_fut_job.push_back(i);
+            c.int_futs[u].reset(new cocls::future<int>(pool.run([pc, i]() -> int { pc->mark_ran(i); return 7; })));
         } break;
         case K_RUN_DETACHED: {
             Ctx *pc = &c;
             pool.run_detached([pc, i, g = Guard(&r)]() { pc->j[(size_t)i].guard_called++; pc->mark_ran(i); });
         } break;
         case K_RUN_ASYNC:
-            c.int_futs.emplace_back(new cocls::future<int>(pool.run(job_async(c, i))));
-            c.int_fut_job.push_back(i);
+            c.int_futs[u].reset(new cocls::future<int>(pool.run(job_async(c, i))));
             break;
         default: {
-            c.vgates.emplace_back(new cocls::future<void>());
-            cocls::promise<void> pr = c.vgates.back()->get_promise();
-            c.co_done.emplace_back(new cocls::future<void>(job_parked(c, i, c.vgates.back().get()).start()));
+            c.vgates[u].reset(new cocls::future<void>());
+            cocls::promise<void> pr = c.vgates[u]->get_promise();
+            c.co_done[u].reset(new cocls::future<void>(job_parked(c, i, c.vgates[u].get()).start()));
             pool.resume(pr());     // the suspend point carries the parked coroutine
         } break;
     }
@@ -129,22 +131,28 @@ inline void run(hz::Reader &rd, bool allow_self_stop) {
     {
         Ctx c; c.p = &p; c.j.resize(p.jobs.size());
         for (size_t i = 0; i < p.jobs.size(); i++) c.j[i].kind = p.jobs[i].kind;
+        c.co_done.resize(p.jobs.size()); c.int_futs.resize(p.jobs.size()); c.gates.resize(p.jobs.size()); c.vgates.resize(p.jobs.size());
         c.pool.reset(new cocls::thread_pool(p.workers));
         c.pp = c.pool.get();
+        // a second thread submits its share concurrently with the owner (and with the owner's stop())
+        std::thread second([&c, &p] { for (size_t i = 0; i < p.jobs.size(); i++) if (p.jobs[i].where == 1) submit(c, (int)i); });
         for (size_t i = 0; i < p.jobs.size(); i++) {
-            if (p.stop_who == 1 && p.stop_pos == i) {
-                hz::upoints(p.stop_yields);
-                c.t_stop_begin = hz::tick(); c.pool->stop(); c.t_stop_end = hz::tick();
+            if (p.jobs[i].where == 0) {
+                if (p.stop_who == 1 && p.stop_pos == i) {
+                    hz::upoints(p.stop_yields);
+                    c.t_stop_begin = hz::tick(); c.pool->stop(); c.t_stop_end = hz::tick();
+                }
+                submit(c, (int)i);
             }
-            submit(c, (int)i);
             if (p.stop_who == 2 && p.stop_pos == i) {
                 Ctx *pc = &c;
                 // stop() from one of the pool's own threads (allowed: the thread detaches itself)
                 c.pool->run_detached([pc]() { pc->t_stop_begin = hz::tick(); pc->pp->stop(); pc->t_stop_end = hz::tick(); });
             }
         }
-        if (p.stop_who == 1 && p.stop_pos >= p.jobs.size()) { hz::upoints(p.stop_yields); c.t_stop_begin = hz::tick(); c.pool->stop(); c.t_stop_end = hz::tick(); }
+        if (p.stop_who == 1 && !c.t_stop_begin) { hz::upoints(p.stop_yields); c.t_stop_begin = hz::tick(); c.pool->stop(); c.t_stop_end = hz::tick(); }
         if (p.stop_who == 3) { hz::upoints(p.stop_yields); c.t_stop_begin = hz::tick(); c.pool->stop(); c.t_stop_end = hz::tick(); c.pool->stop(); }
+        second.join();
         if (p.stop_who == 2) {
             // wait until the self-stopping job has finished before the pool object dies
             // (the job uses the pool object; destroying it under its feet would be a harness bug)
@@ -155,14 +163,12 @@ inline void run(hz::Reader &rd, bool allow_self_stop) {
         // a submission made after stop() had returned must be settled at once - it must not
         // hang until the pool object is destroyed
         if ((p.stop_who == 1 || p.stop_who == 3) && c.t_stop_end) {
-            size_t ci = 0, fi = 0;
             for (size_t i = 0; i < c.j.size(); i++) {
                 JRec &r = c.j[i];
-                bool is_co = r.kind == K_COAWAIT || r.kind == K_COAWAIT_AWT_READY || r.kind == K_COAWAIT_AWT_PENDING || r.kind == K_RESUME_SP;
-                bool is_fut = r.kind == K_RUN_FN || r.kind == K_RUN_ASYNC;
-                bool after_stop = r.t_submit_end > c.t_stop_end && i >= p.stop_pos;
-                if (is_co) { if (after_stop) HZ_CHECK(c.co_done[ci]->ready(), "job %zu (kind %d) was submitted after stop() had returned and is still pending (would hang until the pool is destroyed)", i, r.kind); ci++; }
-                if (is_fut) { if (after_stop) HZ_CHECK(c.int_futs[fi]->ready(), "job %zu (kind %d): future of a submission made after stop() had returned is still pending", i, r.kind); fi++; }
+                bool after_stop = r.t_submit_begin > c.t_stop_end;
+                if (!after_stop) continue;
+                if (c.co_done[i]) HZ_CHECK(c.co_done[i]->ready(), "job %zu (kind %d) was submitted after stop() had returned and is still pending (would hang until the pool is destroyed)", i, r.kind);
+                if (c.int_futs[i]) HZ_CHECK(c.int_futs[i]->ready(), "job %zu (kind %d): future of a submission made after stop() had returned is still pending", i, r.kind);
             }
         }
         if (!c.t_stop_begin) c.t_stop_begin = hz::tick();
@@ -171,7 +177,8 @@ inline void run(hz::Reader &rd, bool allow_self_stop) {
 
         // ---- oracle: every submission ran once on a worker or was cancelled once ----
         for (size_t k = 0; k < c.int_futs.size(); k++) {
-            int i = c.int_fut_job[k]; JRec &r = c.j[(size_t)i];
+            if (!c.int_futs[k]) continue;
+            int i = (int)k; JRec &r = c.j[k];
             HZ_CHECK(c.int_futs[k]->ready(), "job %d (%s): the returned future is still pending after the pool was destroyed (forgotten submission)", i, r.kind == K_RUN_FN ? "run(fn)" : "run(async)");
             bool hv = (bool)c.int_futs[k]->has_value();
             if (!hv) r.cancelled++;
@@ -179,7 +186,7 @@ inline void run(hz::Reader &rd, bool allow_self_stop) {
             HZ_CHECK(hv == (r.ran == 1), "job %d: future has_value()=%d but the body ran %d times", i, (int)hv, r.ran);
         }
         for (size_t k = 0; k < c.co_done.size(); k++)
-            HZ_CHECK(c.co_done[k]->ready(), "coroutine job (co_done #%zu) never finished: it was neither run nor cancelled (forgotten with a waiter left hanging)", k);
+            if (c.co_done[k]) HZ_CHECK(c.co_done[k]->ready(), "coroutine job %zu never finished: it was neither run nor cancelled (forgotten with a waiter left hanging)", k);
         for (size_t i = 0; i < c.j.size(); i++) {
             JRec &r = c.j[i];
             if (r.kind == K_RUN_DETACHED) {
